@@ -91,14 +91,14 @@ type slotKey struct{ id, ts uint32 }
 
 type sim struct {
 	nestedArchive int32 // set while a second archive download runs inside a gap of the first
-	forceNegZero bool // the next impact round hands out -0 for every device
-	res          *core.Result
-	w            *srv.World
-	a            *actors
-	r            *core.RNG
-	regDone      bool
-	regKey       glow.PublicKey
-	nextID       uint32
+	forceNegZero  bool  // the next impact round hands out -0 for every device
+	res           *core.Result
+	w             *srv.World
+	a             *actors
+	r             *core.RNG
+	regDone       bool
+	regKey        glow.PublicKey
+	nextID        uint32
 	// C02: distinct valid datagrams delivered per live (device, slot), and whether one exceeded capacity
 	slotSet  map[slotKey]map[string]uint64
 	slotOver map[slotKey]bool
